@@ -177,6 +177,14 @@ func genExtension(g *prng.R, idx int) extSpec {
 			// whatever order its maps iterate in (finding 18: it looked no
 			// further than the first referenced parent).
 			wantLink = false
+			if i == 1 {
+				// The chain starts below as:IntransitiveActivity, from which
+				// 'object' is withheld: every later chain type sits two or
+				// more levels below it and must still lack 'object'
+				// (a withheld property stays withheld from all descendants).
+				parents = []string{"IntransitiveActivity"}
+				np = 1
+			}
 			if i >= 2 {
 				for len(parents) == 0 {
 					if p := asTypes[g.Intn(len(asTypes))]; !isLinkish[p] {
